@@ -650,7 +650,10 @@ class World:
             for n in ('combine_r', 'combine', 'combine_variant_datasets', 'calculate_new_intervals', 'make_reference_stream',
                       'make_variant_stream', 'transform_gvcf', 'defined_entry_fields'):
                 setattr(vdc, n, getattr(self, n))
-            vdc.uuid = types.SimpleNamespace(uuid4=lambda: _real_uuid.UUID(int=rng.getrandbits(128), version=4), UUID=_real_uuid.UUID)
+            fake_uuid = types.ModuleType('uuid')
+            fake_uuid.__dict__.update({k: v for k, v in vars(_real_uuid).items() if not k.startswith('__')})
+            fake_uuid.uuid4 = lambda: _real_uuid.UUID(int=rng.getrandbits(128), version=4)  # seeded: runs are replayable
+            vdc.uuid = fake_uuid
             World.current = self
             yield vdc
         finally:
